@@ -57,10 +57,25 @@ func main() {
 		fmt.Fprintln(os.Stderr, "usage: verifharness <command>")
 		os.Exit(2)
 	}
-	in := bufio.NewReaderSize(os.Stdin, 1<<20)
+	// cases come from a file (second argument): standard input is left alone
+	// because the VM's READ instruction reads it
+	var in *bufio.Reader
+	if len(os.Args) > 2 && os.Args[1] != "encsrc" && os.Args[1] != "builtins" {
+		f, err := os.Open(os.Args[2])
+		if err != nil {
+			fmt.Fprintln(os.Stderr, err)
+			os.Exit(2)
+		}
+		defer f.Close()
+		in = bufio.NewReaderSize(f, 1<<20)
+	} else {
+		in = bufio.NewReaderSize(os.Stdin, 1<<20)
+	}
 	switch os.Args[1] {
 	case "encsrc":
 		cmdEncSrc()
+	case "builtins":
+		cmdBuiltins()
 	case "valop":
 		cmdValOp(in)
 	case "lex":
